@@ -1,6 +1,7 @@
 import Txtpp.Lemmas.MachineFacts
 import Txtpp.Model.Pp
 import Txtpp.Lemmas.WriteEscape
+import Txtpp.Lemmas.PlainIdentity
 /-!
 # Property C16 — ordinary text passes through unchanged and write output is inert
 -/
@@ -63,5 +64,29 @@ theorem write_escape_roundtrip {W : Type} (Wd : World W) (le : List Char) (trail
 example : detectFrom ['T', 'X', 'T', 'P', 'P', '#', 'r', 'u', 'n', 'x'] = none := by decide
 -- the hypotheses are satisfiable by a text that itself is a directive line
 example : trim ['-', 'T', 'X', 'T', 'P', 'P', '#', 'r', 'u', 'n', ' ', 'x'] = ['-', 'T', 'X', 'T', 'P', 'P', '#', 'r', 'u', 'n', ' ', 'x'] := by decide
+
+/-- **Byte for byte.** A source that consists of plain lines (no directive line; no CR / LF inside a
+line), each terminated by the same line ending (LF or CRLF) - in UTF-8, any characters - is
+reproduced exactly: after a build pass with the trailing newline on, the output file holds the very
+bytes of the source. (Bytes in, bytes out: `BufRead::lines`, the UTF-8 decoding, the line loop, the
+line-ending sniffing and the encoding of the output are all inside the statement.) -/
+theorem plain_source_reproduced_byte_for_byte (cfg : Cfg) (hb : cfg.mode = .build) (ht : cfg.trailing = true) (fs : FS)
+    (src o : Path) (first : Bool) (crlf : Bool) (lines : List (List Char)) (hne : lines ≠ [])
+    (hclean : ∀ l ∈ lines, Clean l) (hplain : ∀ l ∈ lines, detectFrom l = none)
+    (hfile : fs.file? src = some (ByteArray.mk (srcBytes crlf lines).toArray)) (hout : outputPath src = some o)
+    (hdir : fs.isDir o = false) :
+    (runPass cfg fs src first).1 = .ok ∧
+    (runPass cfg fs src first).2.file? o = some (ByteArray.mk (srcBytes crlf lines).toArray) :=
+  plain_source_identity cfg hb ht fs src o first crlf lines hne hclean hplain hfile hout hdir
+
+/-- the byte-level reading of a source: lines each followed by the same ending come back as those lines -/
+theorem source_bytes_read_back (crlf : Bool) (lines : List (List Char)) (hc : ∀ l ∈ lines, Clean l) :
+    decodeLines (byteLines (srcBytes crlf lines)) = (lines, true) := by
+  rw [byteLines_src crlf lines hc, decodeLines_src]
+
+/-- UTF-8: a byte 10 / 13 in the encoding of a character is that character being LF / CR (multi-byte
+sequences never contain them) -/
+theorem utf8_newline_bytes_are_newlines (c : Char) (b : UInt8) (hb : b ∈ String.utf8EncodeChar c) :
+    (b = 10 → c = '\n') ∧ (b = 13 → c = '\r') := encodeChar_nl c b hb
 
 end C16
